@@ -387,6 +387,8 @@ func (aof *AppendableFile) writer(w io.Writer) (cw io.Writer, err error) {
 		cw = lzw.NewWriter(w, lzw.MSB, 8)
 	case appendable.ZLibCompression:
 		cw, err = zlib.NewWriterLevel(w, aof.compressionLevel)
+	default:
+		err = fmt.Errorf("%w: unknown compression format %d", ErrCorruptedMetadata, aof.compressionFormat)
 	}
 	return
 }
@@ -401,6 +403,8 @@ func (aof *AppendableFile) reader(r io.Reader) (reader io.ReadCloser, err error)
 		reader = lzw.NewReader(r, lzw.MSB, 8)
 	case appendable.ZLibCompression:
 		reader, err = zlib.NewReader(r)
+	default:
+		err = fmt.Errorf("%w: unknown compression format %d", ErrCorruptedMetadata, aof.compressionFormat)
 	}
 	return
 }
